@@ -27,7 +27,7 @@ def main():
     tier = 'quick'
     if '--tier' in args:
         tier = args[args.index('--tier') + 1]
-    filt = [a for a in args if not a.startswith('--') and a != tier]
+    filt = [a for a in args if not a.startswith('-') and a != tier and not a.isdigit()]
     muts = []
     for m in json.load(open(os.path.join(ROOT, 'selftest/mutants/INDEX.json'))):
         muts.append(dict(name=m['name'], patch=os.path.join(ROOT, 'selftest/mutants', m['name'] + '.diff'), expect=m['expect'], kind='selftest'))
@@ -41,7 +41,14 @@ def main():
     old = {}
     if os.path.exists(resfile) and filt:
         old = {r['name']: r for r in json.load(open(resfile))}
-    for m in muts:
+    jobs = 1
+    if '-j' in args:
+        jobs = int(args[args.index('-j') + 1])
+    import threading
+    from concurrent.futures import ThreadPoolExecutor
+    lock = threading.Lock()
+
+    def one(m):
         t0 = time.time()
         copy = os.path.join(SCRATCH, m['name'], 'rtcp')
         out = os.path.join(SCRATCH, m['name'], 'out')
@@ -69,14 +76,22 @@ def main():
                 r['errors'] = [c for c, v in r['checks'].items() if v['exit'] not in (0, 1)]
         r['seconds'] = round(time.time() - t0, 1)
         shutil.rmtree(os.path.join(SCRATCH, m['name']), ignore_errors=True)
-        tag = None
-        # remove the alternate build directories of this copy
-        for d in glob.glob(os.path.join(ROOT, 'harness', 'bin-alt-*')) + glob.glob(os.path.join(ROOT, 'harness', 'alt-*')):
+        # remove the alternate build directories of this copy (named after a checksum of its path, as ./check does)
+        tag = subprocess.run("printf '%s' " + copy + " | cksum | cut -d' ' -f1", shell=True, stdout=subprocess.PIPE, text=True).stdout.strip()
+        for d in (os.path.join(ROOT, 'harness', 'bin-alt-' + tag), os.path.join(ROOT, 'harness', 'alt-' + tag)):
             shutil.rmtree(d, ignore_errors=True)
-        results.append(r)
-        print('%-40s %-18s caught_by=%s errors=%s (%.0fs)' % (r['name'], r['status'], ','.join(r.get('caught_by', [])), ','.join(r.get('errors', [])), r['seconds']), flush=True)
-        old[r['name']] = r
-        json.dump(sorted(old.values(), key=lambda x: x['name']), open(resfile, 'w'), indent=1)
+        with lock:
+            results.append(r)
+            print('%-40s %-18s caught_by=%s errors=%s (%.0fs)' % (r['name'], r['status'], ','.join(r.get('caught_by', [])), ','.join(r.get('errors', [])), r['seconds']), flush=True)
+            old[r['name']] = r
+            json.dump(sorted(old.values(), key=lambda x: x['name']), open(resfile, 'w'), indent=1)
+
+    if jobs <= 1:
+        for m in muts:
+            one(m)
+    else:
+        with ThreadPoolExecutor(max_workers=jobs) as ex:
+            list(ex.map(one, muts))
     real = [r for r in results if r['status'] == 'realistic']
     surv = [r['name'] for r in real if not r.get('caught_by')]
     print('realistic: %d  killed: %d  survived: %s' % (len(real), len(real) - len(surv), surv))
